@@ -421,15 +421,18 @@ func c17NT(c c17Case) (bool, []string) {
 	if c.PingPct > 0 {
 		cl = append(cl, "ping_above_quarter_timeout")
 	}
+	if c.ServerPingMs > 0 && c.ServerPingMs*6 < c.TimeoutMs/c.PingDiv {
+		cl = append(cl, "server_pings_much_more_often")
+	}
 	return c.Factor > 1 || strings.HasPrefix(c.Scenario, "blackhole"), cl
 }
 
-const c17Rule = "client timeout 600-1500 ms with ping = timeout/4..timeout/8 or 30-48 % of the timeout, server ping off or timeout/8..timeout/2.2; scenarios: one call lasting 0.1-3 x timeout, a call plus a paced stream, idleness of 0.5-3 x timeout followed by a call, a paced stream lasting 1.5-3 x timeout, blackhole with three calls pending, blackhole while idle followed by a call, steady notifications, four senders of back-to-back notifications for at least 1.5 x timeout, a long call right after a redial, silence of 2-5 x timeout with redials refused followed by a healed path (client with a reverse handler), a 16 MiB request or response whose path pauses for three ping intervals of its writer (< timeout/2) in the middle of the transfer. Scenarios of the fixed grid run concurrently (each on its own server, proxy and client). Non-trivial = duration above the timeout, or a blackhole; distinct by descriptor hash"
+const c17Rule = "client timeout 600-1500 ms with ping = timeout/4..timeout/8 or 30-48 % of the timeout, server ping off or timeout/40..timeout/2.2; scenarios: one call lasting 0.1-3 x timeout, a call plus a paced stream, idleness of 0.5-3 x timeout followed by a call, a paced stream lasting 1.5-3 x timeout, blackhole with three calls pending, blackhole while idle followed by a call, steady notifications, four senders of back-to-back notifications for at least 1.5 x timeout, a long call right after a redial, silence of 2-5 x timeout with redials refused followed by a healed path (client with a reverse handler), a 16 MiB request or response whose path pauses for three ping intervals of its writer (< timeout/2) in the middle of the transfer. Scenarios of the fixed grid run concurrently (each on its own server, proxy and client). Non-trivial = duration above the timeout, or a blackhole; distinct by descriptor hash"
 
 func TestC17(t *testing.T) {
 	rec := NewRec("C17", c17Rule)
 	defer rec.Finish(t)
-	rec.RequireClass("ping_above_quarter_timeout", "scenario_notification_storm", "scenario_long_blackhole_then_heal", "scenario_slow_reader_big_transfer", "scenario_long_call_after_redial", "scenario_steady_notifications", "scenario_blackhole_fresh_steady", "scenario_long_call", "scenario_idle_then_call", "scenario_stream", "scenario_mixed", "scenario_blackhole_pending", "scenario_blackhole_idle", "server_ping_off", "server_ping_on", "longer_than_timeout")
+	rec.RequireClass("server_pings_much_more_often", "ping_above_quarter_timeout", "scenario_notification_storm", "scenario_long_blackhole_then_heal", "scenario_slow_reader_big_transfer", "scenario_long_call_after_redial", "scenario_steady_notifications", "scenario_blackhole_fresh_steady", "scenario_long_call", "scenario_idle_then_call", "scenario_stream", "scenario_mixed", "scenario_blackhole_pending", "scenario_blackhole_idle", "server_ping_off", "server_ping_on", "longer_than_timeout")
 	var mu sync.Mutex
 	var firstV *Violation
 	var firstC c17Case
@@ -480,6 +483,10 @@ func TestC17(t *testing.T) {
 				cases = append(cases, c17Case{TimeoutMs: 800, PingDiv: 4, PingPct: pct, ServerPingMs: -1, Scenario: sc, Factor: 2.5})
 			}
 		}
+		// a server that pings much more often than the client does
+		for _, sc := range []string{"long_call", "idle_then_call", "stream"} {
+			cases = append(cases, c17Case{TimeoutMs: 800, PingDiv: 4, ServerPingMs: 20, Scenario: sc, Factor: 2.5})
+		}
 		sh, nsh := shard()
 		var wg sync.WaitGroup
 		sem := make(chan struct{}, 10)
@@ -507,6 +514,9 @@ func TestC17(t *testing.T) {
 			Factor:   float64(rapid.IntRange(1, 30).Draw(rt, "factor10")) / 10}
 		if rapid.Bool().Draw(rt, "serverping") {
 			c.ServerPingMs = int(float64(T) / (2.2 + float64(rapid.IntRange(0, 60).Draw(rt, "spdiv10"))/10))
+			if rapid.IntRange(0, 4).Draw(rt, "spfast") == 0 {
+				c.ServerPingMs = T / 40
+			}
 		}
 		if c.Scenario == "stream" && c.Factor < 1.5 {
 			c.Factor += 1.5
